@@ -68,4 +68,11 @@ for route, nm, ti in ((0, "point_mul", "sm2_z256_point_mul"), (1, "point_mul_ex"
                         "title": ti + ": result = [k]P for every 256-bit scalar (window loops, Booth digits, table look-ups over the discrete-log image of the group)",
                         "bounds": "all 256-bit scalars; group order q = 13 (discrete-log model); base point index 1..12, normalised or not",
                         "stubs": ["group = Z_13 (models/sm2_dlog.c): point ops are index arithmetic, generator table entry [i][j] = (j+1) 2^(7i)"]})
+for modn, nm in ((0, "modp"), (1, "modn")):
+    OBLIGATIONS.append({"id": "C13-c.%s_mont_reduce" % nm, "harness": "harness/C13/montred.c", "entry": "h_mont_reduce", "units": ["sm2_z256.c"],
+                        "remove": {"sm2_z256.c": ["sm2_z256_mul", "sm2_z256_print", "sm2_z256_point_print", "sm2_z256_point_affine_print", "sm2_z256_from_hex", "sm2_z256_equ_hex",
+                                                  "sm2_z256_point_from_hex", "sm2_z256_point_equ_hex", "sm2_z256_point_from_hash", "sm2_z256_point_to_der", "sm2_z256_point_from_der", "sm2_z256_rand_range"]},
+                        "defs": ["-DMODN=%d" % modn], "unwind": 12, "timeout": 900, "backend": "cadical", "exact": True,
+                        "title": "sm2_z256_%s_mont_mul: reduction step (512-bit add with carry, conditional subtraction by the right modulus) returns (z + t)/2^256 mod M for every consistent (z, t)" % nm,
+                        "bounds": "all z < M^2 and all t = q 2^256 - z < 2^256 M (multiplier replaced by an oracle)", "stubs": ["sm2_z256_mul: oracle (arbitrary consistent products)"]})
 NOTE = "C13: SM2 256-bit arithmetic layer (portable C back end)."
